@@ -81,14 +81,14 @@ Definition write_step (w : wstate) (e : ev) (x : ans) : option wstate :=
   end.
 
 (* the three legal final states, with the documented statuses *)
-Definition outcome_ok (handled : bool) (result : string) (w : wstate) : bool :=
+Definition outcome_ok_gen (strict_location : bool) (handled : bool) (result : string) (w : wstate) : bool :=
   if negb handled then match w_status w with [] => Nat.eqb (w_writes w) 0 | _ => false end
   else if String.eqb result "ok" then
     (* the application's Authenticate* callback answered "not authenticated": it wrote the response itself *)
     if w_denied w then match w_status w with [] => true | _ => false end else
     match w_status w with
     | [n] => (Nat.eqb n 200 || Nat.eqb n 201 || Nat.eqb n 400 || Nat.eqb n 403 || Nat.eqb n 405 || Nat.eqb n 410) &&
-             (negb (Nat.eqb n 201) || match w_location w, w_first_newid w with Some l, Some i => String.eqb l i | _, _ => false end)
+             (negb (Nat.eqb n 201) || match w_location w, w_first_newid w with Some l, Some i => negb strict_location || String.eqb l i | Some _, None => negb strict_location | _, _ => false end)
     | _ => false
     end
   else match w_status w with
@@ -96,3 +96,8 @@ Definition outcome_ok (handled : bool) (result : string) (w : wstate) : bool :=
        | [403] => false   (* a 403 is written only together with a nil error *)
        | _ => false
        end.
+
+(* strict: the Location of a 201 is the first id generated for this request (the new activity's);
+   weak: a Location was set before the 201 *)
+Definition outcome_ok := outcome_ok_gen true.
+Definition outcome_ok_weak := outcome_ok_gen false.
